@@ -463,6 +463,15 @@ def V1State.removeAuthEvent (s : V1State) (t k : Bytes) : V1State :=
   else if t == b!"m.room.third_party_invite" then { s with tpis := setOpt s.tpis k none }
   else s
 
+/-- `authEventAt`: the auth event currently registered for (type, state_key), if any (a nil map entry counts as none) -/
+def V1State.authEventAt (s : V1State) (t k : Bytes) : Option Event :=
+  if t == b!"m.room.create" then (if k.isEmpty then s.create else none)
+  else if t == b!"m.room.power_levels" then (if k.isEmpty then s.pl else none)
+  else if t == b!"m.room.join_rules" then (if k.isEmpty then s.jr else none)
+  else if t == b!"m.room.member" then s.members.findSome? (fun x => if x.1 == k then x.2 else none)
+  else if t == b!"m.room.third_party_invite" then s.tpis.findSome? (fun x => if x.1 == k then x.2 else none)
+  else none
+
 /-- the resolver seen as an auth event provider -/
 def V1State.provider (s : V1State) (valid : Bool) : Provider :=
   let evs := s.create.toList ++ s.pl.toList ++ s.jr.toList ++ (s.members.filterMap (·.2)) ++ (s.tpis.filterMap (·.2))
@@ -474,7 +483,7 @@ def v1Allowed (s : V1State) (valid : Bool) (e : Event) : Bool :=
 def sortV1 (sha : ID → Bytes) (evs : List Event) : List Event :=
   (sortBy (fun (a b : Event × V1Key) => v1Lt a.2 b.2) (evs.map (fun e => (e, ({ depth := e.depth, sha1 := sha e.eventID } : V1Key))))).map (·.1)
 
-/-- `resolveAuthBlock`: returns the winner and the state with the winner removed again -/
+/-- `resolveAuthBlock`: returns the winner and the state with the slot restored to what it held before the block -/
 def resolveAuthBlock (sha : ID → Bytes) (valid : Bool) (s : V1State) (evs : List Event) : Option Event × V1State :=
   match sortV1 sha evs with
   | [] => (none, s)
@@ -483,8 +492,13 @@ def resolveAuthBlock (sha : ID → Bytes) (valid : Bool) (s : V1State) (evs : Li
       match rest with
       | [] => (result, s)
       | e :: more => if v1Allowed s valid e then go (s.addAuthEvent e) e more else (result, s)
+    -- what the caller supplied for this slot is put back once the block is resolved
+    let prev := s.authEventAt first.type (first.stateKey.getD [])
     let (result, s') := go (s.addAuthEvent first) first rest
-    (some result, s'.removeAuthEvent result.type (result.stateKey.getD []))
+    let s'' := s'.removeAuthEvent result.type (result.stateKey.getD [])
+    (some result, match prev with
+      | some p => s''.addAuthEvent p
+      | none => s'')
 
 /-- `resolveNormalBlock` -/
 def resolveNormalBlock (sha : ID → Bytes) (valid : Bool) (s : V1State) (evs : List Event) : Option Event :=
